@@ -7,6 +7,8 @@ package lib
 import (
 	"fmt"
 	"math/rand"
+	"reflect"
+	"strconv"
 
 	"github.com/cuteLittleDevil/go-jt808/protocol/model"
 	"github.com/cuteLittleDevil/go-jt808/protocol/utils"
@@ -449,6 +451,70 @@ func (g *Gen) Value(t *BodyType, ver int, d consts.ActiveSafetyType) (h BodyHand
 		return v, true
 	}
 	return nil, false
+}
+
+// ParamsDirect builds a P0x8103 WITHOUT going through the parser: every chosen typed field of TerminalParamDetails
+// (named T0x<id>...) is assigned by reflection {ID: id, Len: width of its type, Value: random in range}; text values
+// are GBK-encodable (possibly empty), Len is the length of their GBK form; `others` adds unknown ids with raw values;
+// ParamTotal is the number of parameters.  pick(id) chooses the fields.
+func (g *Gen) ParamsDirect(pick func(id uint32) bool, others []uint32) *model.P0x8103 {
+	v := &model.P0x8103{}
+	d := reflect.ValueOf(&v.TerminalParamDetails).Elem()
+	n := 0
+	for i := 0; i < d.NumField(); i++ {
+		name := d.Type().Field(i).Name
+		if len(name) < 6 || name[:3] != "T0x" {
+			continue
+		}
+		id64, err := strconv.ParseUint(name[3:6], 16, 32)
+		if err != nil || !pick(uint32(id64)) {
+			continue
+		}
+		f := d.Field(i)
+		val := f.FieldByName("Value")
+		var plen int
+		switch val.Kind() {
+		case reflect.Uint32:
+			val.SetUint(uint64(g.u32()))
+			plen = 4
+		case reflect.Uint16:
+			val.SetUint(uint64(g.u16()))
+			plen = 2
+		case reflect.Uint8:
+			val.SetUint(uint64(g.u8()))
+			plen = 1
+		case reflect.String:
+			s := g.Text(40)
+			val.SetString(s)
+			plen = len(utils.UTF82GBK([]byte(s)))
+		case reflect.Array:
+			for k := 0; k < val.Len(); k++ {
+				val.Index(k).SetUint(uint64(g.u8()))
+			}
+			plen = val.Len()
+		default:
+			continue
+		}
+		f.FieldByName("ID").SetUint(id64)
+		f.FieldByName("Len").SetUint(uint64(plen))
+		n++
+	}
+	if len(others) > 0 {
+		v.TerminalParamDetails.OtherContent = map[uint32]model.ParamContent[[]byte]{}
+		for _, id := range others {
+			b := g.Bytes(g.R.Intn(13))
+			if id == 0 && len(b) == 0 {
+				b = []byte{7}
+			}
+			if b == nil {
+				b = []byte{}
+			}
+			v.TerminalParamDetails.OtherContent[id] = model.ParamContent[[]byte]{ID: id, Len: byte(len(b)), Value: b}
+			n++
+		}
+	}
+	v.ParamTotal = uint8(n)
+	return v
 }
 
 // Versions / Dialects a type is exercised with.
